@@ -246,8 +246,15 @@ def patched(*triples):
                     pass
 
 
+def fixed_eig(values=(-1.0,)):
+    def eig(a):
+        n = np.asarray(a, dtype=object).shape[0]
+        return np.array([values[i % len(values)] for i in range(n)], dtype=float), np.eye(n)
+    return eig
+
+
 @contextlib.contextmanager
-def integrator_stubs(c, ascending_eig=True, keyed=False):
+def integrator_stubs(c, ascending_eig=True, keyed=False, eig="sym"):  # noqa
     """install ode / odeint / eig stubs for one symbolic path"""
     import scipy.integrate
     import numpy.linalg
@@ -260,7 +267,7 @@ def integrator_stubs(c, ascending_eig=True, keyed=False):
     book.odeint = odeint
     with patched((scipy.integrate, "ode", StubOde),
                  (scipy.integrate, "odeint", odeint),
-                 (np.linalg, "eig", stub_eig(c, ascending=ascending_eig))):
+                 (np.linalg, "eig", stub_eig(c, ascending=ascending_eig) if eig == "sym" else fixed_eig())):
         yield book
 
 
@@ -347,3 +354,116 @@ class Stream(object):
             self.log.append(("binomial", nm, n, p))
             return g
         return self._shape(size, gen)
+
+
+# --------------------------------------------------------------------------
+# scipy.stats / scipy.special
+# --------------------------------------------------------------------------
+SHAPES = {"expon": [], "gamma": ["a"], "norm": [], "chi2": ["df"], "uniform": [], "beta": ["a", "b"],
+          "poisson": ["mu"], "binom": ["n", "p"], "nbinom": ["n", "p"]}
+DISCRETE = {"poisson", "binom", "nbinom"}
+
+
+def _elementwise(fn, x):
+    if isinstance(x, np.ndarray):
+        out = np.empty(x.shape, dtype=object)
+        for idx in np.ndindex(x.shape):
+            out[idx] = fn(x[idx])
+        return out
+    if isinstance(x, (list, tuple)):
+        return np.array([fn(v) for v in x], dtype=object)
+    return fn(x)
+
+
+def _bcast(args):
+    """broadcast scalars/arrays in args to a common shape; returns (shape or None, getter)"""
+    shape = None
+    for a in args:
+        if isinstance(a, np.ndarray) and a.shape != ():
+            shape = a.shape
+    return shape
+
+
+class StatsStub(object):
+    """scipy.stats stand-in: st.<dist>.<fn>(x, shapes..., loc=, scale=) -> UF_<dist>_<fn>(x, shapes..., loc, scale).
+    Argument normalisation follows scipy's signatures (shapes positional or by keyword, loc=0, scale=1).
+    Poisson log-pmf additionally has its closed form (validated against scipy on concrete points)."""
+
+    def __init__(self, c, closed_forms=True):
+        self.c = c
+        self.calls = []
+        self.closed_forms = closed_forms
+
+    def __getattr__(self, dist):
+        if dist.startswith("_") or dist not in SHAPES:
+            raise AttributeError(dist)
+        return _Dist(self, dist)
+
+    def term(self, dist, fn, x, params):
+        """the canonical term for one scalar evaluation (used both by the stub and by the harness oracle)"""
+        names = SHAPES[dist] + (["loc"] if dist in DISCRETE else ["loc", "scale"])
+        vals = [params[n] for n in names]
+        if self.closed_forms and dist == "poisson" and fn == "logpmf" and _is0(params["loc"]):
+            mu = params["mu"]
+            return x * _log(mu) - mu - _lgamma(x + 1)
+        f = self.c.uf("st_%s_%s" % (dist, fn), 1 + len(vals))
+        return f(x, *vals)
+
+
+def _is0(v):
+    return not isinstance(v, Sym) and v == 0
+
+
+def _log(v):
+    return v.log() if isinstance(v, Sym) else math.log(v)
+
+
+def _lgamma(v):
+    return v.lgamma() if isinstance(v, Sym) else math.lgamma(v)
+
+
+class _Dist(object):
+    def __init__(self, st, dist):
+        self.st, self.dist = st, dist
+
+    def __getattr__(self, fn):
+        if fn not in ("pdf", "logpdf", "cdf", "logcdf", "ppf", "pmf", "logpmf", "sf", "isf", "rvs"):
+            raise AttributeError(fn)
+
+        def call(x=None, *args, **kw):
+            shapes = SHAPES[self.dist]
+            params = {}
+            args = list(args)
+            for n in shapes:
+                if args:
+                    params[n] = args.pop(0)
+                elif n in kw:
+                    params[n] = kw.pop(n)
+                else:
+                    raise TypeError("_parse_args() missing 1 required positional argument: '%s'" % n)
+            tail = ["loc"] if self.dist in DISCRETE else ["loc", "scale"]
+            for n in tail:
+                if args:
+                    params[n] = args.pop(0)
+                else:
+                    params[n] = kw.pop(n, 0 if n == "loc" else 1)
+            if args or [k for k in kw if k not in ("size", "random_state")]:
+                raise TypeError("_parse_args() got an unexpected keyword argument %r" % (list(kw) or args))
+            self.st.calls.append((self.dist, fn, x, dict(params)))
+            if fn == "rvs":
+                raise sym.Abort("st.%s.rvs: unseeded scipy sampler" % self.dist, kind="rvs")
+            # broadcast over arrays
+            arrs = [x] + list(params.values())
+            shape = _bcast(arrs)
+            if shape is None:
+                return self.st.term(self.dist, fn, x, params)
+            out = np.empty(shape, dtype=object)
+            for idx in np.ndindex(shape):
+                g = lambda a: a[idx] if isinstance(a, np.ndarray) and a.shape != () else a
+                out[idx] = self.st.term(self.dist, fn, g(x), {k: g(v) for k, v in params.items()})
+            return out
+        return call
+
+
+def stub_gammaln(x):
+    return _elementwise(_lgamma, x)
